@@ -172,8 +172,14 @@ func (r *Reader) decodeG3ScanLine1D() {
 
 	numEOL := 0
 
-	for xpos < r.Columns && r.err == nil {
+	// A make-up code is always followed by a terminating code, also when
+	// it completes the row: the terminating code (of length 0) belongs to
+	// this row, not to the next one.
+	needTerm := false
+
+	for (xpos < r.Columns || needTerm) && r.err == nil {
 		runLength, state := r.decodeRun(isWhite)
+		needTerm = state == S_MakeUpW || state == S_MakeUpB || state == S_MakeUp
 
 		runLength = min(runLength, r.Columns-xpos)
 		r.fillRowBits(xpos, xpos+runLength, isWhite != r.BlackIs1)
